@@ -230,8 +230,86 @@ func genChange(r *run.Runner, g *Gen, same bool) bool {
 	if same {
 		oids = sidStrs(other)
 	}
-	decoys := [][]w.Val{mk(ids, clampZ(H-1), clampZ(V-1)), mk(oids, H, V)}
+	decoys := [][]w.Val{mk(ids, clampZ(H-1), clampZ(V-1))}
+	// the same x, y, f one horizontal zoom finer, in reverse order, at a target one finer: the zoom DIFFERENCES are those of the call itself,
+	// and the last ID of this decoy has the x, y of the call's first ID (state kept by the per-axis helpers between two calls)
+	shifted := make([]eid, 0, len(es))
+	okShift := H < 35 && (!same || V < 35)
+	for i := len(es) - 1; i >= 0; i-- {
+		e := es[i]
+		e.h++
+		if same {
+			e.v++
+		}
+		okShift = okShift && e.valid()
+		shifted = append(shifted, e)
+	}
+	if okShift {
+		sids := extStrs(shifted)
+		V2 := V
+		if same {
+			sids = sidStrs(shifted)
+			V2 = V + 1
+		}
+		if changeCost(w.AsStrs(sids), same, H+1, V2) <= genLimit*2 {
+			decoys = append(decoys, mk(sids, H+1, V2))
+		}
+	}
+	decoys = append(decoys, mk(oids, H, V))
 	return emit(r, name, mk(ids, H, V), decoys, g.R.Int63(), []string{mode, lenTag(n)}, false)
+}
+
+// the per-axis helpers: decoys are consecutive related calls — the same x, y (resp. f) and the same zoom DIFFERENCE at another
+// input zoom, the same input zoom at another difference, other indices at the same zooms
+func genAxisHelper(r *run.Runner, g *Gen) bool {
+	zin := g.Int63n(36)
+	d := g.Int63n(9) - 4 // zout - zin
+	if g.Chance(0.5) {
+		d = g.Int63n(4) // refining: the result is a list
+	}
+	zout := clampZ(zin + d)
+	d = zout - zin
+	other := clampZ(zin + g.Pick(1, -1, 2, -2))
+	if other == zin || other+d < 0 || other+d > 35 {
+		other = clampZ(zin - g.Pick(1, -1))
+	}
+	if other+d < 0 || other+d > 35 {
+		other = zin
+	}
+	if g.Chance(0.6) {
+		x, y := g.HIndex(zin), g.HIndex(zin)
+		if g.Chance(0.4) { // indices that are valid at both input zooms
+			x, y = g.HIndex(min64(zin, other)), g.HIndex(min64(zin, other))
+		}
+		A := []w.Val{w.I(zin), w.I(x), w.I(y), w.I(zout)}
+		// in pairs (X, B): X differs from the call in the difference / the index, B has the call's x, y and difference at another input zoom
+		decoys := [][]w.Val{
+			{w.I(zin), w.I(x), w.I(y), w.I(clampZ(zout - 1))},    // other difference
+			{w.I(other), w.I(x), w.I(y), w.I(other + d)},         // same x, y and difference, other input zoom
+			{w.I(zin), w.I(g.HIndex(zin)), w.I(y), w.I(zout)},    // other index
+			{w.I(other), w.I(x), w.I(y), w.I(clampZ(other + d))}, // again
+		}
+		return emit(r, "HorizontalZoom", A, decoys, g.R.Int63(), []string{Tag("dz=%d", d)}, false)
+	}
+	f := g.VIndex(zin)
+	if g.Chance(0.4) {
+		f = g.VIndex(min64(zin, other))
+	}
+	d2 := d
+	if d2 > 0 {
+		d2 = d + g.Int63n(4)
+		if zin+d2 > 35 {
+			d2 = 35 - zin
+		}
+	}
+	A := []w.Val{w.I(zin), w.I(f), w.I(zin + d2)}
+	decoys := [][]w.Val{
+		{w.I(zin), w.I(f), w.I(clampZ(zin + d2 - 1))},
+		{w.I(other), w.I(f), w.I(clampZ(other + d2))},
+		{w.I(zin), w.I(g.VIndex(zin)), w.I(zin + d2)},
+		{w.I(other), w.I(f), w.I(clampZ(other + d2))},
+	}
+	return emit(r, "VerticalZoom", A, decoys, g.R.Int63(), []string{Tag("dz=%d", d2)}, false)
 }
 
 // ---------------------------------------------------------------------------------------------- merge
@@ -1062,6 +1140,9 @@ func genOne(r *run.Runner, g *Gen, i int) bool {
 	case 23:
 		return genTiles(r, g, true)
 	case 24:
+		if g.Chance(0.65) {
+			return genAxisHelper(r, g)
+		}
 		return genExpand(r, g)
 	default:
 		if g.Chance(0.35) {
@@ -1152,6 +1233,9 @@ func fixedCases(r *run.Runner) {
 			emit(r, "MergeExtendedSpatialIds", []w.Val{extStrs(es), w.I(0), w.I(0)}, nil, 11, []string{"fixed"}, false)
 		}
 	}
+	// HorizontalZoom: the same x, y and zoom difference at another input zoom between two repeats
+	emit(r, "HorizontalZoom", []w.Val{w.I(5), w.I(3), w.I(3), w.I(7)}, [][]w.Val{{w.I(5), w.I(3), w.I(3), w.I(6)}, {w.I(6), w.I(3), w.I(3), w.I(8)}}, 3, []string{"fixed"}, false)
+	emit(r, "VerticalZoom", []w.Val{w.I(5), w.I(-3), w.I(7)}, [][]w.Val{{w.I(5), w.I(-3), w.I(6)}, {w.I(6), w.I(-3), w.I(8)}}, 3, []string{"fixed"}, false)
 	// zoom change: refine-only with nested and repeated inputs
 	emit(r, "ChangeExtendedSpatialIdsZoom", []w.Val{strList([]string{"3/1/1/3/-1", "4/2/2/4/-2", "3/1/1/3/-1", "2/0/0/2/-1"}), w.I(5), w.I(5)},
 		[][]w.Val{{strList([]string{"3/1/1/3/-1"}), w.I(2), w.I(2)}}, 3, []string{"fixed", "refine-only"}, false)
